@@ -67,8 +67,23 @@ INNER_FNS = ["add_digits", "sub_digits", "compare_abs", "bignum_add", "bignum_su
              "ratio_normalize", "ratio_normalize", "ratio_add", "ratio_mul", "ratio_div", "ratio_compare", "ratio_compare"]
 
 
+def fixed_inner():
+    """boundary pairs that every run must see (each was the witness of a defect or of a hand-made breaking change)"""
+    MINF, out = -(1 << 62), []
+    crit = [MINF, -MINF, FIXMAX, -FIXMAX, -1, 1, 2, -2, 0, (1 << 62) + 1, -(1 << 62) - 1]
+    for x in crit:
+        for y in crit:
+            nx, ny = numstr(None, x, False), numstr(None, y, False)
+            for f in ("vm_quotient", "vm_remainder", "num_compare", "vm_add", "vm_sub", "num_mul"):
+                out.append("%s %s %s" % (f, nx, ny))
+            if not (y == 0 and nx.startswith("f:")):
+                out.append("num_quotient %s %s" % (nx, ny))
+                out.append("num_remainder %s %s" % (nx, ny))
+    return out
+
+
 def gen_inner(rng, pos, n):
-    reqs = []
+    reqs = fixed_inner()
     sg = lambda: rng.choice(["1", "-1"])
     small = [v for v in pos if v < (1 << 200)]
     for i in range(n):
@@ -339,6 +354,14 @@ def run(ctx):
         ctx.cov["traces_validated_against_impl"] += 1
         if i is None:
             continue          # stream cut after repeated hangs (already reported)
+        if m != i and q.startswith("bignum_sqrt") and " " in m and " " in i and not i.startswith(("TIMEOUT", "CRASH")):
+            # the C code starts Newton from a flonum estimate, the model from a power of two: same root and
+            # remainder (theorem sqrt_newton_sound) but different spare words; compare values + canonical form
+            try:
+                if [(_num(t), t[0]) for t in m.split(" ")] == [(_num(t), t[0]) for t in i.split(" ")]:
+                    continue
+            except Exception:
+                pass
         if m != i:
             # the model and the C function differ on this word array: is the C result wrong w.r.t. Z?
             verdict = _judge_inner(q, i)
